@@ -280,7 +280,8 @@ def defuzzifier(draw, kind):
 
 
 @st.composite
-def output_variable(draw, name, rg, profile, n_inputs, nterms=(1, 4), flags=True):
+def output_variable(draw, name, rg, profile, n_inputs, nterms=(1, 4), flags=True, functions=None):
+    """functions: list of input variable names => Takagi-Sugeno outputs may hold Function terms over them."""
     n = draw(st.integers(*nterms))
     names = draw(st.permutations(TERM_NAMES))[:n]
     terms = []
@@ -290,7 +291,12 @@ def output_variable(draw, name, rg, profile, n_inputs, nterms=(1, 4), flags=True
         agg = draw(st.sampled_from(refmath.SNORMS))
     elif profile == "ts":
         for nm in names:
-            if draw(st.booleans()):
+            if functions and draw(st.integers(0, 2)) == 0:
+                c1, c2 = draw(st.integers(0, 50)) / 8, draw(st.integers(0, 50)) / 8
+                k_in = draw(st.integers(0, n_inputs - 1))
+                terms.append({"cls": "Function", "formula": f"{c1:.3f} * {functions[k_in]} + {c2:.3f}", "p": [],
+                              "h": 1.0, "name": nm, "ref": ["lin", c1, c2, k_in]})
+            elif draw(st.booleans()):
                 terms.append({"cls": "Constant", "p": [draw(loc(rg))], "h": 1.0, "name": nm})
             else:
                 k = n_inputs + draw(st.integers(0, 1))
@@ -429,7 +435,7 @@ def activation_general():
 
 @st.composite
 def engine(draw, profile=None, n_in=(1, 3), n_out=(1, 2), n_blocks=(1, 2), n_rules=(1, 6), rg=None, flags=True,
-           out_in_ante=True, activation=None, depth=3, in_classes=None, weights=True):
+           out_in_ante=True, activation=None, depth=3, in_classes=None, weights=True, functions=False):
     rg = rg or draw(regime())
     profile = profile or draw(st.sampled_from(["mamdani", "mamdani", "ts", "tsukamoto", "inverse", "hybrid"]))
     ni = draw(st.integers(*n_in))
@@ -440,7 +446,7 @@ def engine(draw, profile=None, n_in=(1, 3), n_out=(1, 2), n_blocks=(1, 2), n_rul
     outputs = []
     for nm in onames:
         p = profile if profile != "hybrid" else draw(st.sampled_from(["mamdani", "ts", "tsukamoto", "inverse"]))
-        outputs.append(draw(output_variable(nm, rg, p, ni, flags=flags)))
+        outputs.append(draw(output_variable(nm, rg, p, ni, flags=flags, functions=list(inames) if functions else None)))
     ivars = [(v["name"], [t["name"] for t in v["terms"]]) for v in inputs]
     ovars = [(v["name"], [t["name"] for t in v["terms"]]) for v in outputs]
     blocks = []
